@@ -27,7 +27,7 @@ func init() {
 		Doc: "where a goroutine both closes a channel by defer and reports a recovered panic by sending on that channel, the close is registered first (it runs last): the report is never sent on a closed channel"})
 	register(&Rule{ID: "R-CANCELEARLY", Min: 1, Run: ruleCancelEarly,
 		Doc: "in Exec the per-execution cancel function is stored into the query before the first call into the physical plan (Series/Next): Cancel/Close from another goroutine take effect however early they arrive"})
-	register(&Rule{ID: "R-CHANCAP", Min: 3, Run: ruleChanCap,
+	register(&Rule{ID: "R-CHANCAP", Min: 5, Run: ruleChanCap,
 		Doc: "every error channel of the repo is created with a capacity (never unbuffered): its goroutines send without select and their receiver may return early, so an unbuffered send would park the goroutine forever"})
 	register(&Rule{ID: "R-ERRPROP", Min: 40, Run: ruleErrProp,
 		Doc: "every error returned by a call in engine, execution/... and logicalplan is consumed: returned, stored, sent or passed on. An error that is only compared with nil, or never looked at, is dropped (the allow-list is exactly: Log, deferred Close, hash Write/WriteString)"})
@@ -57,6 +57,8 @@ func init() {
 		New: "\tresultSeries, err := q.Query.exec.Series(ctx)\n\tif err != nil {\n\t\treturn newErrResult(ret, err)\n\t}\n\tq.cancelMtx.Lock()\n\tq.cancel = cancel\n\tq.cancelMtx.Unlock()\n", Expect: "Exec"})
 	mutant(Mutant{Rule: "R-CHANCAP", Name: "binary-errchan-unbuffered", File: "execution/binary/vector.go",
 		Old: "var errChan = make(chan error, 1)", New: "var errChan = make(chan error)", Expect: "initOutputs"})
+	mutant(Mutant{Rule: "R-CHANCAP", Name: "worker-output-unbuffered", File: "worker/worker.go",
+		Old: "output := make(chan model.StepVector, 1)", New: "output := make(chan model.StepVector)", Expect: "worker channel"})
 	mutant(Mutant{Rule: "R-ERRPROP", Name: "once-closure-shadows-err", File: "execution/step_invariant/step_invariant.go",
 		Old: "\tvar in []model.StepVector\n\tu.cacheVectorOnce.Do(func() {\n\t\tin, err = u.next.Next(ctx)", New: "\tu.cacheVectorOnce.Do(func() {\n\t\tin, err := u.next.Next(ctx)", Expect: "cacheInputVector"})
 	mutant(Mutant{Rule: "R-ERRPROP", Name: "operand-error-overwritten", File: "execution/execution.go",
@@ -561,13 +563,21 @@ func ruleChanCap(p *core.Program) []core.Obligation {
 				return
 			}
 			ch, ok := mk.Type().Underlying().(*types.Chan)
-			if !ok || !types.Identical(ch.Elem(), errT) {
+			if !ok {
+				return
+			}
+			// error channels everywhere; and the worker's task/result channels, whose protocol (Send/GetOutput check the
+			// context only before they block) relies on one slot of buffering
+			if !types.Identical(ch.Elem(), errT) && core.Rel(fn.Pkg.Pkg.Path()) != "worker" {
 				return
 			}
 			k++
 			key := fmt.Sprintf("%s error channel #%d", core.FuncName(fn), k)
+			if !types.Identical(ch.Elem(), errT) {
+				key = fmt.Sprintf("%s worker channel #%d", core.FuncName(fn), k)
+			}
 			if c, ok := core.ConstInt(mk.Size); ok && c == 0 {
-				obs = append(obs, core.Ob(rule, key, p.Pos(mk.Pos()), core.FuncName(fn), core.Violated, "unbuffered error channel: when the receiver returns early (the other side failed, the query was cancelled) the sending goroutine blocks forever and outlives the query"))
+				obs = append(obs, core.Ob(rule, key, p.Pos(mk.Pos()), core.FuncName(fn), core.Violated, "unbuffered channel: when the receiver returns early (the other side failed, the query was cancelled) the sending goroutine blocks forever and outlives the query"))
 			} else {
 				obs = append(obs, core.Ob(rule, key, p.Pos(mk.Pos()), core.FuncName(fn), core.Held, "created with a capacity"))
 			}
@@ -1149,6 +1159,19 @@ func rootedAtReceiver(fn *ssa.Function, v ssa.Value) bool {
 			v = x.X
 		case *ssa.Slice:
 			v = x.X
+		case *ssa.Alloc:
+			// the receiver spilled into a local because a closure captures it
+			for _, r := range core.Referrers(x) {
+				if st, ok := r.(*ssa.Store); ok && st.Addr == ssa.Value(x) && st.Val == recv {
+					return true
+				}
+			}
+			return false
+		case *ssa.FreeVar:
+			// inside a closure of the method: the captured receiver
+			par := fn.Parent()
+			_ = par
+			return false
 		default:
 			return false
 		}
